@@ -77,7 +77,8 @@ cpdef bint check_working_hours_fast(
 
     # Check cross-midnight from previous day
     if check_cross_midnight:
-        prev_weekday = (weekday - 1) % 7
+        # (weekday - 1) % 7 in Python semantics: with cdivision the C remainder of -1 is -1, not 6
+        prev_weekday = (weekday + 6) % 7
         if prev_weekday in hours_dict:
             intervals = hours_dict[prev_weekday]
             for i in range(len(intervals)):
@@ -115,7 +116,7 @@ cpdef tuple extract_time_components(object dt):
     return (dt.hour, dt.minute, dt.weekday())
 
 
-cpdef float calculate_daily_hours(list intervals):
+cpdef double calculate_daily_hours(list intervals):
     """
     Calculate total working hours from interval list.
 
@@ -147,4 +148,4 @@ cpdef float calculate_daily_hours(list intervals):
 
         total_minutes += (end_minutes - start_minutes)
 
-    return <float>total_minutes / 60.0
+    return <double>total_minutes / 60.0
